@@ -35,7 +35,17 @@ enum Op {
     AddrRemoved,
     Idle100,
     Idle1s,
+    // cache-flush alphabet (part "flush-histories" only)
+    HostTwoAddrs,
+    HostOnlyX,
+    HostOnlyY,
+    SrvOtherPort,
+    TxtOther,
+    Idle1100,
 }
+/// Events of the focused cache-flush part: a flushing record moves the expiry of its older siblings
+/// to one second from now, which is time-driven work the daemon must wake itself for.
+const FLUSH_OPS: [Op; 7] = [Op::HostTwoAddrs, Op::HostOnlyX, Op::HostOnlyY, Op::Idle1100, Op::SrvOtherPort, Op::TxtOther, Op::Announce10];
 const OPS: [Op; 23] = [
     Op::Register,
     Op::PeerProbeWins,
@@ -183,6 +193,22 @@ fn exec(seq: &[Op], dense: bool, horizon_ms: u64, trace: bool) -> Exec {
             }
             Op::Idle100 => adv(&mut w, 100),
             Op::Idle1s => adv(&mut w, 1000),
+            Op::Idle1100 => adv(&mut w, 1100),
+            Op::HostTwoAddrs => {
+                w.deliver(0, IF0, PEER0, build(&response(vec![a(&n("h.local"), [10, 0, 0, 9], 120), a(&n("h.local"), [10, 0, 0, 10], 120)])));
+            }
+            Op::HostOnlyX => {
+                w.deliver(0, IF0, PEER0, build(&response(vec![a(&n("h.local"), [10, 0, 0, 9], 120)])));
+            }
+            Op::HostOnlyY => {
+                w.deliver(0, IF0, PEER0, build(&response(vec![a(&n("h.local"), [10, 0, 0, 10], 120)])));
+            }
+            Op::SrvOtherPort => {
+                w.deliver(0, IF0, PEER0, build(&response(vec![srv(&i.inst, &i.host, 4242, 120)])));
+            }
+            Op::TxtOther => {
+                w.deliver(0, IF0, PEER0, build(&response(vec![txt(&i.inst, &[3, b'q', b'=', b'1'], 4500)])));
+            }
         }
     }
     // silent horizon; count iterations per quiet second in the self-timed run
@@ -333,6 +359,38 @@ pub fn check(tier: &str) -> i32 {
         run: Box::new(move |i, tr| run_case(&[[Op::Browse, Op::Register, Op::ResolveHost][(i % 3) as usize], OPS[(i / 3) as usize]], if thorough { 130_000 } else { 30_000 }, tr)),
     };
     rep.run_part(&long, Duration::from_secs(if thorough { 1800 } else { 40 }));
+    // cache-flush histories under a live browse and a live host-name search
+    let (fops, fdepth, fhor): (usize, usize, u64) = if thorough { (7, 5, 6_000) } else { (4, 4, 3_000) };
+    let mut nf = 0u64;
+    let mut b = 1u64;
+    for _ in 0..=fdepth {
+        nf += b;
+        b *= fops as u64;
+    }
+    let fseq = move |mut idx: u64| -> Vec<Op> {
+        let mut len = 0;
+        let mut block = 1u64;
+        while idx >= block {
+            idx -= block;
+            block *= fops as u64;
+            len += 1;
+        }
+        let mut v = vec![Op::IpCheckHuge, Op::Browse, Op::ResolveHost, Op::Announce10];
+        for _ in 0..len {
+            v.push(FLUSH_OPS[(idx % fops as u64) as usize]);
+            idx /= fops as u64;
+        }
+        v
+    };
+    let flush = FnPart {
+        name: "flush-histories".into(),
+        rule: format!("a browse and a host-name search are running and the instance is resolved; then every sequence of <= {fdepth} events over the first {fops} of [host announces two addresses, only the first, only the second (each with the cache-flush bit), 1.1 s idle, SRV with another port, TXT with other data, full re-announcement], followed by {} s of silence; same comparison", fhor / 1000),
+        n: nf,
+        describe: Box::new(move |i| format!("{:?}", fseq(i))),
+        run: Box::new(move |i, tr| run_case(&fseq(i), fhor, tr)),
+    };
+    rep.run_part(&flush, Duration::from_secs(if thorough { 7200 } else { 40 }));
+    rep.require("flush-histories", "log_entries_compared");
     rep.require("self-timed-vs-dense", "log_entries_compared");
     rep.finish()
 }
